@@ -390,11 +390,17 @@ def corpus(tier, which="basic"):
     obs = {o["id"]: o for o in core.e1_run(recs, which + "-" + tier)}
     cp = e2.Corpus(which + "-" + tier)
     info = {}
+    rejected = {}
     for pid, c, tags in progs:
         names = {}
         o = obs[pid + ":ct"]
-        if o.get("dirty") or o.get("panic"):
-            raise core.MachineryError("basic corpus program %s rejected by the macro (model says valid)" % pid)
+        bad_o = next((x for x in [o] + [obs[pid + ":" + i.module] for i in c.interfaces] if x.get("dirty") or x.get("panic") or x.get("has_compile_error")), None)
+        if bad_o is not None:
+            # a program the model calls valid that the macro itself rejects: reported like a compile failure (never a crash of the check)
+            rejected[pid] = [{"code": None, "message": "rejected by the macro (%s): %s" % (bad_o["id"], bad_o.get("panic") or (bad_o.get("compile_errors") or ["diagnostic emitted"])[0]),
+                              "lines": [], "rendered": ""}]
+            info[pid] = (c, tags, names)
+            continue
         for k, fns in e2.e1_names(o).items():
             names[("contract", k)] = fns
         for i in c.interfaces:
@@ -405,6 +411,7 @@ def corpus(tier, which="basic"):
         info[pid] = (c, tags, names)
     cp.write()
     cp.build()
+    cp.failed.update(rejected)
     _CACHE[key] = (cp, info)
     return _CACHE[key]
 
